@@ -120,7 +120,7 @@ prop("C16", "proof",
      "themselves (F8 transplant, repaired by 291caf1); li_bounds_tied: prover and verifier use the same bound on D_1 (F11, repaired by ff66daa; source tie regenerated each run). "
      "Soundness core (ClSound.v): same-secret, square and larger-interval sub-proofs are specially sound (two challenge/response tuples for one first message: g^dD h^dD1 == E^dc, ONE dD for both commitments) and rigid (same challenge, other responses: a relation between the bases or a hash collision). "
      "PARTIAL: rejection of edited proofs / other bounds, bases, modulus is decided by correspondence (proofs equal integer for integer, rejection loops included) + sweep "
-     "(widths 1, 2, 3, 2^k, 2^256-1, endpoints, out-of-range provers, transplant forgeries, forced-gap replay). Known finding F13 (prove panics for rmax <= 0) reported.",
+     "(widths 1, 2, 3, 2^k, 2^256-1, endpoints, out-of-range provers, transplant forgeries, forced-gap replay). Known findings F13 (prove panics for rmax <= 0) and F19b (n - E / n - F accepted when only even powers are taken) reported; F19 (E + n, -E, F + n accepted) found by the residue edits and repaired by ce9f533 (boudot_accepts_canonical, square_accepts_canonical).",
      "DESIGN.md §10 C16", NOTE_CL)
 prop("C17", "proof",
      "The property is VIOLATED by the code (finding F9): machine-checked on the faithful model -- the signature proof embeds Cv = {value, randomness} with value = v g_0^randomness "
